@@ -47,6 +47,14 @@ V('c20-twin-mask-literal', 'C20', 'C20.CONGRUENCE', DNS,
 
 CORE = '_core.py'
 # ---------------------------------------------------------------- C17
+V('c17-single-registry-snapshot', 'C17', 'C17.GOODBYE', CORE,
+  "        while True:\n            out = self.generate_unregister_all_services()\n            if not out:\n                return\n            for i in range(_REGISTER_BROADCASTS):\n                if i != 0:\n                    await asyncio.sleep(millis_to_seconds(_UNREGISTER_TIME))\n                self.async_send(out)\n",
+  "        out = self.generate_unregister_all_services()\n        if not out:\n            return\n        for i in range(_REGISTER_BROADCASTS):\n            if i != 0:\n                await asyncio.sleep(millis_to_seconds(_UNREGISTER_TIME))\n            self.async_send(out)\n")
+V('c17-twin-sleep-after-each-goodbye', 'C17', 'C17.GOODBYE', CORE,
+  "            for i in range(_REGISTER_BROADCASTS):\n                if i != 0:\n                    await asyncio.sleep(millis_to_seconds(_UNREGISTER_TIME))\n                self.async_send(out)\n",
+  "            for i in range(_REGISTER_BROADCASTS):\n                self.async_send(out)\n                await asyncio.sleep(millis_to_seconds(_UNREGISTER_TIME))\n", expect='silent')  # the registry is examined again after the trailing wait
+V('c17-suspend-before-gate', 'C17', 'C17.GOODBYE', 'asyncio.py',
+  "        await self.async_unregister_all_services()\n        await self.zeroconf._async_close()", "        await self.async_unregister_all_services()\n        await asyncio.sleep(0)\n        await self.zeroconf._async_close()")
 V('c17-second-sendto', 'C17', 'C17.GATE', '_handlers/multicast_outgoing_queue.py',
   "            zc.async_send(construct_outgoing_multicast_answers(answers))",
   "            out = construct_outgoing_multicast_answers(answers)\n            for packet in out.packets():\n                for t in zc.engine.senders:\n                    t.transport.sendto(packet, ('224.0.0.251', 5353))",
